@@ -154,6 +154,13 @@ def build(case):
         cut = int(spec.spike_samples[spec.n_spikes * 3 // 4])
         if cut > 30:
             spec.raw = spec.raw[:cut]             # the raw file ends before the last spikes
+    if case['seed'][2] % 6 == 4 and spec.names == 'ks':
+        # Kilosort's optional batch-ordered copy of the spike times (seconds, NOT increasing) lies in the source; it is no
+        # part of what is exported
+        import io
+        bio = io.BytesIO()
+        np.save(bio, rng.permutation(spec.spike_samples.astype(np.float64) / spec.sample_rate))
+        spec.extra_files['spike_times_reordered.npy'] = bio.getvalue()
     if rng.random() < 0.25:
         spec.notes['ks2_templates_ind'] = True     # a Kilosort-2 templates_ind.npy next to the dense templates (ignored by phylib)
     if rng.random() < 0.2:
@@ -285,7 +292,9 @@ def _run(case, ctx, d, which):
                 call(m2.close)
             out = os.path.join(d, 'alf_other_factor')
             factor = [2.34375e-06, 4][case['seed'][2] % 8 == 3]
-            desc = dict(desc, factor=factor, history='same_creator_other_factor')
+            if label and case['seed'][2] % 8 == 7:
+                label = ''             # ... and without the label of the first conversion
+            desc = dict(desc, factor=factor, label=label, history='same_creator_other_factor')
             rr = call(c.convert, out, label=label, ampfactor=factor)
             after = snapshot(src)
             if not rr.ok:
